@@ -235,7 +235,9 @@ func checkC16(c *Check) {
 
 	// during synchronisation the child stays blocked until the callback returned: the acknowledge is written only
 	// after it (C07.2), so a controller that dies inside the callback leaves a child that sees end-of-file
-	importObs(c, "C07", "C07.2/parent-sync", "7/blocked-until-ack", func(o Obligation) bool { return strings.Contains(o.Key, "ack") || strings.Contains(o.Key, "channel-write") })
+	importObs(c, "C07", "C07.2/parent-sync", "7/blocked-until-ack", func(o Obligation) bool {
+		return strings.Contains(o.Key, "ack") || strings.Contains(o.Key, "channel-write")
+	})
 	c.Expect("7/blocked-until-ack", 3)
 
 	// every way out of the container's receive loop closes 'done' (end-of-file included): the init exits when the
